@@ -304,7 +304,7 @@ func c07Histories(j *rt.Job, rng *rt.Rand, r *rt.Rec) {
 			if f, ok := first[km]; ok {
 				if !bytes.Equal(f, sig[:]) {
 					r.Violate("C07/order-dependent", fmt.Sprintf("signature of the same (key,message) changed with call order (order %d)", order),
-						map[string]interface{}{"kind": "job", "job": j}, rt.Short(f), rt.Short(sig[:]))
+						jobCase(j), rt.Short(f), rt.Short(sig[:]))
 					return
 				}
 				r.Count("order_repeats_equal", 1)
